@@ -126,7 +126,7 @@ def print_axioms(module, names):
     return {"axioms": res, "missing": missing, "rc": rc, "log": out[-2000:] if (rc or missing) else ""}
 
 
-def run_driver(lines, shards=None, timeout=3000):
+def run_driver(lines, shards=None, timeout=3000, exe=None):
     """send request lines to the compiled driver (sharded over cores); return response lines"""
     lines = list(lines)
     if not lines:
@@ -139,7 +139,7 @@ def run_driver(lines, shards=None, timeout=3000):
     parts = [lines[i:i + size] for i in range(0, len(lines), size)]
 
     def one(part):
-        p = subprocess.run([DRIVER], input="\n".join(part) + "\n", stdout=subprocess.PIPE,
+        p = subprocess.run([exe or DRIVER], input="\n".join(part) + "\n", stdout=subprocess.PIPE,
                            stderr=subprocess.PIPE, text=True, timeout=timeout)
         out = p.stdout.split("\n")
         if out and out[-1] == "":
